@@ -124,9 +124,18 @@ fn pos_metric(m: &PosMetric) -> PositionalMetricType {
     }
 }
 
-fn constraints(c: &Option<Vec<(usize, f32)>>) -> Option<SpatioTemporalConstraints> {
-    c.as_ref()
-        .map(|v| SpatioTemporalConstraints::default().constraints(v))
+/// the table is assembled by `calls` successive add_constraints calls (a gap
+/// configured twice keeps its first limit, also across calls)
+fn constraints(c: &Option<Vec<(usize, f32)>>, calls: usize) -> Option<SpatioTemporalConstraints> {
+    c.as_ref().map(|v| {
+        let calls = calls.max(1).min(v.len().max(1));
+        let mut t = SpatioTemporalConstraints::default();
+        let per = (v.len() + calls - 1) / calls.max(1);
+        for chunk in v.chunks(per.max(1)) {
+            t.add_constraints(chunk.to_vec());
+        }
+        t
+    })
 }
 
 fn visual_opts(cfg: &TrkCfg) -> VisualSortOptions {
@@ -151,7 +160,7 @@ fn visual_opts(cfg: &TrkCfg) -> VisualSortOptions {
         .visual_minimal_own_area_percentage_collect(v.own_collect)
         .kalman_position_weight(cfg.pos_w)
         .kalman_velocity_weight(cfg.vel_w);
-    if let Some(c) = constraints(&cfg.constraints) {
+    if let Some(c) = constraints(&cfg.constraints, cfg.constraint_calls) {
         o = o.spatio_temporal_constraints(c);
     }
     o
@@ -265,7 +274,7 @@ impl AnyTracker {
                 cfg.max_idle,
                 pos_metric(&cfg.metric),
                 cfg.min_conf,
-                constraints(&cfg.constraints),
+                constraints(&cfg.constraints, cfg.constraint_calls),
                 cfg.pos_w,
                 cfg.vel_w,
             )),
@@ -276,7 +285,7 @@ impl AnyTracker {
                 cfg.max_idle,
                 pos_metric(&cfg.metric),
                 cfg.min_conf,
-                constraints(&cfg.constraints),
+                constraints(&cfg.constraints, cfg.constraint_calls),
                 cfg.pos_w,
                 cfg.vel_w,
             )),
